@@ -13,6 +13,7 @@ import Mfi.Lemmas.ResL
 import Mfi.Props.C18
 import Mfi.Lemmas.SkelL
 import Mfi.Lemmas.AccrualL
+import Mfi.Lemmas.WorldL
 
 namespace Mfi.Props.C06
 open Mfi Mfi.Fx Mfi.Bank Mfi.Interest Mfi.Gen
@@ -445,5 +446,91 @@ theorem clock_moves_only_after_accrual :
     clockMovers.all (fun e => e.2 || ["kamino_deposit", "kamino_withdraw", "drift_deposit", "drift_withdraw",
                                       "solend_deposit", "solend_withdraw"].contains e.1) = true
     ∧ clockMovers.length = 15 := by decide
+
+section whole_instructions
+open Mfi Mfi.World Mfi.Gen Mfi.Gen.Acc Mfi.Bank
+
+/-! ### whole instructions (Mfi/Model/World.lean) -/
+
+/-- the books an instruction leaves carry exactly the share values of an accrual of the pre-state to the current time -/
+def WorldAtAccrued (c : Ctx) (o : Out) : Prop :=
+  ∃ b1, accrueInterest c.b.books c.b.ir c.now = .ok b1 ∧ o.books.asv = b1.asv ∧ o.books.lsv = b1.lsv
+
+theorem borrowCore_sv {e : Ix.Env} {b b' : Bank} {x x' : Balance} {amount t : Int}
+    (h : borrowCore e b x amount = .ok (b', x', t)) : b'.asv = b.asv ∧ b'.lsv = b.lsv := by
+  unfold borrowCore at h
+  obtain ⟨pre, _, h⟩ := Res.bind_ok h
+  split at h
+  · obtain ⟨fee, _, h⟩ := Res.bind_ok h
+    obtain ⟨_, _, h⟩ := Res.bind_ok h
+    obtain ⟨tot, _, h⟩ := Res.bind_ok h
+    obtain ⟨⟨b2, x2⟩, hd, h⟩ := Res.bind_ok h
+    dsimp only at h
+    have hs := C03.dec_sv hd
+    split at h
+    · injection h with h; injection h with hb _; subst hb; exact hs
+    · split at h
+      · obtain ⟨pf, _, h⟩ := Res.bind_ok h
+        injection h with h; injection h with hb _; subst hb; exact hs
+      · injection h with h; injection h with hb _; subst hb; exact hs
+  · obtain ⟨⟨b2, x2⟩, hd, h⟩ := Res.bind_ok h
+    injection h with h; injection h with hb _; subst hb
+    exact C03.dec_sv hd
+
+/-- **world_instructions_run_at_accrued_values**: each of the five whole instructions, whenever it succeeds, has accrued
+    the bank to the current time first, and every share it books, every token it moves and the health check at its end
+    are computed at those accrued share values -/
+theorem world_instructions_run_at_accrued_values (c : Ctx) :
+    (∀ amt up o, World.deposit c amt up = .ok o → WorldAtAccrued c o) ∧
+    (∀ amt o, World.borrow c amt = .ok o → WorldAtAccrued c o) ∧
+    (∀ amt all o, World.withdraw c amt all = .ok o → WorldAtAccrued c o) ∧
+    (∀ amt all o, World.repay c amt all = .ok o → WorldAtAccrued c o) ∧
+    (∀ o, World.closeBalance c = .ok o → ∃ b1, accrueInterest c.b.books c.b.ir c.now = .ok b1) := by
+  refine ⟨?_, ?_, ?_, ?_, ?_⟩
+  · intro amt up o h
+    obtain ⟨b, a, hb, _, hcore⟩ := (deposit_ok h).core
+    refine ⟨b, hb, ?_⟩
+    split at hcore
+    · obtain ⟨_, hbk, _⟩ := hcore; rw [hbk]; exact ⟨rfl, rfl⟩
+    · obtain ⟨slots, i, s, x', _, _, hd, _⟩ := hcore
+      unfold Ix.depositCore at hd
+      obtain ⟨r, hr, hd⟩ := Res.bind_ok hd
+      obtain ⟨pre, _, hd⟩ := Res.bind_ok hd
+      injection hd with hd; injection hd with hb' _
+      rw [← hb']
+      exact C03.inc_sv (by simpa using hr)
+  · intro amt o h
+    obtain ⟨b, slots, i, x, x', hb, _, _, _, _, hcore, _⟩ := (borrow_ok h).core
+    exact ⟨b, hb, borrowCore_sv hcore⟩
+  · intro amt all o h
+    obtain ⟨price, b, i, s, x', pre, _, hb, _, hcore, _⟩ := (withdraw_ok h).core
+    refine ⟨b, hb, ?_⟩
+    unfold withdrawCore at hcore
+    cases all with
+    | true => exact wdall_sv (by simpa using hcore)
+    | false =>
+      simp only [Bool.false_eq_true, if_false] at hcore
+      obtain ⟨p, _, hcore⟩ := Res.bind_ok hcore
+      obtain ⟨⟨b2, x2⟩, hd, hcore⟩ := Res.bind_ok hcore
+      injection hcore with hcore; injection hcore with hb' _; subst hb'
+      exact C03.dec_sv hd
+  · intro amt all o h
+    obtain ⟨b, i, s, b', x', post, hb, _, hcore, _, hbooks, _⟩ := (repay_ok h).core
+    refine ⟨b, hb, ?_⟩
+    rw [hbooks]
+    show b'.asv = b.asv ∧ b'.lsv = b.lsv
+    unfold repayCore at hcore
+    cases all with
+    | true => exact repall_sv (by simpa using hcore)
+    | false =>
+      simp only [Bool.false_eq_true, if_false] at hcore
+      obtain ⟨⟨b2, x2⟩, hd, hcore⟩ := Res.bind_ok hcore
+      injection hcore with hcore; injection hcore with hb' _; subst hb'
+      exact C03.inc_sv hd
+  · intro o h
+    obtain ⟨b, i, s, x', hb, _⟩ := (close_ok h).core
+    exact ⟨b, hb⟩
+
+end whole_instructions
 
 end Mfi.Props.C06
